@@ -73,9 +73,6 @@ def cell_features(netlist):
                     f['bitlike-scalar-merged-as-bit'].append(name)
                 if '*' in name or '?' in name:
                     f['glob-name-merge'].append(name)
-            for p in d.ports:
-                if len(p.pins) == 1 and p.is_array:
-                    f['one-pin-array-port-written-scalar'].append(p.name)
             feats[(lib.name, d.name)] = f
     return feats
 
@@ -102,10 +99,7 @@ def explain_diff(lines, feats):
         f = feats[key]
         tail = line[len('/libraries/%s/cells/%s/' % key):]
         if tail.startswith('ports['):
-            if re.match(r'ports\[\d+\]/array: True -> False$', tail) and f.get('one-pin-array-port-written-scalar'):
-                causes.add('one-pin-array-port-written-scalar')
-                continue
-            return None
+            return None                   # no known cause changes a port (C03-K2 one-pin array port: repaired)
         if tail.startswith('nets/') or tail.startswith('net_order'):
             cands = [k for k in ('amp-underscore-bus-split', 'backslash-bus-split', 'bitlike-scalar-merged-as-bit', 'glob-name-merge') if f.get(k)]
             if len(cands) != 1:
@@ -225,20 +219,20 @@ def c03_case(netlist, spec_feats=None, second_round=True, limit=CALL_LIMIT):
     return None, info
 
 
+def _expects_pass(path):
+    try:
+        return json.load(open(path)).get('expect') == 'pass'
+    except Exception:
+        return False
+
+
 def _res(kind, detail, cause):
     return {'kind': kind, 'detail': detail, 'signature': '%s|%s' % (kind, cause)}
 
 
 def explain_parse_exc(msg, netlist):
-    has_undef = any(p.direction == sdn.UNDEFINED for lib in netlist.libraries for d in lib.definitions for p in d.ports)
-    props = [pr.get('value') for lib in netlist.libraries for d in lib.definitions for c in d.children
-             for pr in (c.data.get('EDIF.properties') or [])]
-    if has_undef and re.search(r'Expecting inout\|input\|output on line \d+, recieved UNDEFINED', msg):
-        return 'direction-UNDEFINED-written'
-    if any(isinstance(v, float) for v in props) and re.search(r"invalid literal for int\(\) with base 10: '[-0-9.e+]+'", msg):
-        return 'float-written-as-integer'
-    if any(isinstance(v, str) and '"' in v for v in props) and 'Parse error: Expecting' in msg:
-        return 'unescaped-quote-in-string-property'
+    """the reader refusing a file the writer wrote has no known cause any more (C03-K1 direction
+    UNDEFINED, C03-K3 float property, C03-K6 quote in a string property: repaired)"""
     return 'unexplained'
 
 
@@ -526,6 +520,10 @@ def run(prop, tier, seed, replay):
                                 'driver_present': driver_ok, 'log': log[-1500:], 'coqc_output': proof['assumptions'][-1500:]},
                       found_input=False)
     known = load_findings(prop)
+    # an open entry whose witness file says expect=pass has been repaired: the witness is an ordinary
+    # regression case (part 2) and the entry's signature excuses nothing
+    stale_known = [k for k in known if k.get('witness') and _expects_pass(os.path.join(common.ROOT, k['witness']))]
+    known = [k for k in known if k not in stale_known]
     known_by_sig = {k['signature']: k for k in known}
     stats = collections.Counter()
     hist = collections.Counter()
@@ -569,6 +567,8 @@ def run(prop, tier, seed, replay):
         rep.violation('%s-%s' % (re.sub(r'[^A-Za-z0-9_.-]', '_', source), common.sha(json.dumps(replay_obj, default=str, sort_keys=True))), replay_obj)
 
     # ---- 1. known findings: replay their witnesses, they must still fail in the recorded way ----
+    for k in stale_known:
+        notes.append('known finding %s is recorded as repaired (its witness %s is a regression case that must pass): the open entry is to be moved to the fixed list' % (k['id'], k['witness']))
     for k in known:
         if k.get('tier') == 'thorough' and tier != 'thorough':
             continue                      # witness is a large bundled file: replayed in the thorough tier only
@@ -697,6 +697,8 @@ def run(prop, tier, seed, replay):
             key = common.sha(json.dumps(spec, sort_keys=True))
             ncell = sum(len(L['cells']) for L in spec['libraries'])
             hist['risky:%s' % risky] += 1
+            for sh in sorted(eg.spec_shapes(spec)):
+                hist['shape:%s' % sh] += 1
             hist['libraries:%d' % len(spec['libraries'])] += 1
             sizes[ncell] += 1
             if ncell >= 2:
@@ -1032,9 +1034,9 @@ def trusted_base(proof):
 
 ASSUMPTIONS = {
     'C03': ['netlists are EDIF-expressible (all elements named, no double quote/newline in names, non-empty ports and cables, scalar bundles at index 0, acyclic library dependencies, top instance set)',
-            'names and property strings are ASCII', 'one netlist per process call; files are written to a fresh temporary directory',
+            'names and property strings are ASCII without newline; property values are str (any ASCII, double quote and percent included), int, bool or a finite float (-0.0 apart, which reads back as 0.0); port directions may be UNDEFINED, one-pin ports may be arrays', 'one netlist per process call; files are written to a fresh temporary directory',
             'compared: libraries, cells, ports (order, direction, width, array-ness), instances (referenced cell + library, EDIF.properties), nets (name, width, lower index, array flag, ordered pins per bit), top design, names; also the identifiers assigned by the writer against those shown by the reader. NOT compared: Port.lower_index/is_downto (EDIF has no construct for them), properties of cells/ports/nets (the writer only writes instance properties), declaration order of libraries and cells (the writer sorts them)'],
-    'C05': ['texts are in the supported subset: EDIF 2 0 0, netlist views, one view per cell, cells declared before use, port/array ports, instances with viewRef/cellRef/libraryRef, nets with joined portRefs (optionally member / instanceRef), rename, string/integer/boolean properties, comments, status',
+    'C05': ['texts are in the supported subset: EDIF 2 0 0, netlist views, one view per cell, cells declared before use, port/array ports, instances with viewRef/cellRef/libraryRef, nets with joined portRefs (optionally member / instanceRef), rename, string/integer/boolean properties (a string value may hold escapes %n n ..%, e.g. %34% for the double quote: the value is the decoded string), comments, status',
             'identifiers are legal EDIF identifiers, unique per scope case-insensitively; strings contain no double quote',
             'bus bits follow the writer convention (rename <id>_<i>_ "<name>[<i>]")',
             'compared: everything canon(identifiers=True) shows; instance properties with their types; NOT compared: properties of cells/ports/nets, comments, status metadata'],
